@@ -3,6 +3,7 @@ correspondence between /repo (pydrobert.torch.functional.sequence_log_probs / ct
 modules.RandomWalk, distributions.SequentialLanguageModelDistribution) and PV.C07.Model."""
 import itertools
 import json
+import os
 import math
 import random
 import warnings
@@ -1440,6 +1441,8 @@ def greedy_eval(case):
             return res
         if not torch.isfinite(sc).all():
             res["fail"].append(f"non-finite score {sc.tolist()} (finite logits: the best label of a frame has log-probability >= -log V)")
+            res["impl"] = {"score": [str(v) for v in sc.tolist()]}
+            return res  # a NaN / inf has no integer image for the model term; the failure is already concrete
         if ip:
             scz = []
             for v in sc.tolist():
@@ -1885,6 +1888,9 @@ def signature(entry, rec):
 # driver
 # ----------------------------------------------------------------------------------------
 
+from vlib import time_limit as vlib_time_limit, ImplTimeout  # noqa: E402
+
+
 def nontrivial_key(case):
     return case
 
@@ -1896,7 +1902,13 @@ def _term(res):
 
 def _safe_eval(case):
     try:
-        return EVAL[case["api"]](case)
+        # one case normally takes milliseconds; a library whose walk no longer sees its eos runs to the 'practically
+        # infinite' default step limit - that must be a verdict about this case, not a check that hangs
+        with vlib_time_limit(int(os.environ.get("VERIF_CASE_TIMEOUT") or 60), "implementation call"):
+            return EVAL[case["api"]](case)
+    except ImplTimeout as e:
+        return {"terms": [], "spec": [], "nontrivial": False, "impl": "timeout",
+                "fail": [f"implementation did not return ({e}); every path must end at its first eos or at the step limit"]}
     except Exception as e:
         import traceback
         if any("/pydrobert/torch/" in f.filename for f in traceback.extract_tb(e.__traceback__)):
@@ -2146,6 +2158,8 @@ def run(chk, cases=None):
     elif pending_nfi:
         chk.extra["model_only_disagreements"] = [r["case"] for r in pending_nfi[:5]]
     source_tie(chk, cases, results)
+    from props import c07_tie   # second tie: ctc_greedy_search, random_walk_advance, _sequence_log_probs_ps (PV.C07.SrcRunB)
+    c07_tie.source_tieB(chk, cases, results)
 
 
 # ----------------------------------------------------------------------------------------
